@@ -323,6 +323,23 @@ LargeWord StructParentOffset(void) {
     return Result;
 }
 
+/*!------------------------------------------------------------------------
+ * \fn     UnnamedStructOffset(void)
+ * \brief  sum of the offsets of all unnamed structures between the current
+ *         structure and the innermost named one, i.e. what turns an offset in
+ *         the current structure into one in the structure the element belongs to
+ * ------------------------------------------------------------------------ */
+
+LargeWord UnnamedStructOffset(void) {
+    PStructStack pRun;
+    LargeWord    Result = 0;
+
+    for (pRun = StructStack; pRun && pRun != pInnermostNamedStruct; pRun = pRun->Next) {
+        Result += pRun->SaveCurrPC;
+    }
+    return Result;
+}
+
 void BumpStructLength(PStructRec StructRec, LongInt Length) {
     if (StructRec->TotLen < Length) {
         StructRec->TotLen = Length;
